@@ -6,7 +6,7 @@ artefacts, and files matching a repository ignore pattern; an excluded or ignore
 even when named explicitly."""
 from pyvc.api import contract, lemma, custom, Int, Bool, Str, Dict, SeqOf, Rec, Opt, TupleOf, implies, call, ih, opaque, reveal, dict_put
 from contracts._common import PathT, path_str, path_name
-from contracts.c09_paths import (path_parts, name_suffix, mkpath, path_of_str, path_div, fs_is_file, fs_is_dir,
+from contracts.c09_paths import (path_parts, name_suffix, mkpath, path_of_str, path_div, fs_is_file, fs_is_dir, fs_exists,
                                  comp_ok, rel_ok, prefix_ok, name_link)
 
 O = "src/orchestrator/core.py::"
@@ -68,6 +68,53 @@ class ShouldIncludeDir:
 
     def ensures_code_set(dirname, result):
         return result == (not code_excluded_dir(dirname))
+
+
+def keeps_name(f):
+    """Property text: a file is dropped from a directory run iff it is a compiled artefact -- decided by the file's
+    (last) suffix, exactly like _is_hardcoded_excluded decides for an explicitly named file."""
+    return name_suffix(path_name(path_of_str(f))) not in COMPILED_SUFFIXES
+
+
+@contract(O + "_collect_files_from_walk", props=["C14", "C10"], types=dict(root=Str, filenames=SeqOf(Str), root_path=PathT),
+          returns=SeqOf(PathT))
+class CollectFilesFromWalk:
+    def value(root, filenames):
+        return [path_div(path_of_str(root), f) for f in filenames if keeps_name(f)]
+
+
+@lemma(props=["C14", "C10"], types=dict(root=Str, f=Str), name="walk-filter-agrees-with-explicit-file-filter")
+def walk_filter_agrees(root, f):
+    """Directory run and explicit run agree on compiled artefacts: a file name is kept by the walk's per-directory
+    filter iff the SUFFIX test of _is_hardcoded_excluded lets the same file through (both look at the last suffix)."""
+    kept = call(O + "_collect_files_from_walk", root, [f])
+    return (len(kept) == 1) == keeps_name(f) and (len(kept) == 0) == (not keeps_name(f))
+
+
+@lemma(props=["C14"], types=dict(n=Str), name="top-level-file-excluded-iff-compiled")
+def top_level_file(n):
+    """Property text: files are dropped when they are INSIDE an always-excluded directory or compiled artefacts. A file
+    given by its bare name `n` is inside no directory, so it is hard-excluded iff its suffix is a compiled one.
+    EXPECTED TO FAIL (C14-file-named-like-excluded-dir): the file's own name is tested against the directory names."""
+    if not comp_ok(n):
+        return True
+    p = mkpath([n])
+    name_link(p)
+    reveal(any_excluded, [n])
+    reveal(any_excluded, [])
+    return call(O + "_is_hardcoded_excluded", p) == (name_suffix(n) in COMPILED_SUFFIXES)
+
+
+@lemma(props=["C14"], types=dict(n=Str), name="top-level-file-excluded-adjusted")
+def top_level_file_adjusted(n):
+    """Finding-adjusted: ... or the file's own name is one of the listed directory names / ends in .egg-info."""
+    if not comp_ok(n):
+        return True
+    p = mkpath([n])
+    name_link(p)
+    reveal(any_excluded, [n])
+    reveal(any_excluded, [])
+    return call(O + "_is_hardcoded_excluded", p) == (name_suffix(n) in COMPILED_SUFFIXES or code_excluded_dir(n))
 
 
 @lemma(props=["C14"], types=dict(name=Str), name="explicit-file-excluded-iff-documented")
@@ -227,7 +274,10 @@ class IsIgnored:
 DIR_NAMES = sorted(SPEC_EXCLUDED_DIRS | EXTRA_EXCLUDED_DIRS) + ["x.egg-info", "*.egg-info", ".hidden", "pkg", "src", "BUILD",
                                                                 "Node_Modules", "build2", "distx", "egg-info"]
 FILE_NAMES = ["a.py", "b.pyc", "c.PYC", "d.so", "noext", ".hiddenfile", "e.egg-info", "build", "dist", "m.o", "n.obj", "k.class",
-              "t.ts", "lib.dylib", "venv", "x.pyo", "y.pyd", "z.dll", "w.txt"]
+              "t.ts", "lib.dylib", "venv", "x.pyo", "y.pyd", "z.dll", "w.txt",
+              # compound names: only the LAST suffix counts
+              "user.class.ts", "shapes.obj.py", "codec.o.py", "libfoo.so.1", "mod.pyc.bak", "a.tar.gz", "types.d.ts", "x.test.ts",
+              ".so", "..pyc", "name.", "pkg.dll.py"]
 
 
 def _gen_tree(rng, depth):
@@ -351,6 +401,19 @@ def excluded_set_native(ctx):
                 return [dict(name=name, kind="bounded", verdict="refuted", carries=True, tool="native exhaustive over the listed set",
                              budget="suffix list", cases=cases, witness_confirmed=True, witness={"suffix": suf, "got": got},
                              note=f"suffix {suf!r}: _is_hardcoded_excluded = {got}, expected {want}")]
+        # directory run vs explicit run: the walk's per-directory filter and _is_hardcoded_excluded agree on every file name
+        for fn in FILE_NAMES + ["m" + s_ for s_ in sorted(COMPILED_SUFFIXES)] + ["a" + s_ + ".py" for s_ in sorted(COMPILED_SUFFIXES)]:
+            if code_excluded_dir(fn):
+                continue  # a FILE named like an excluded directory: recorded finding C14-file-named-like-excluded-dir
+            cases += 1
+            kept = call_target(O + "_collect_files_from_walk", "proj", [fn])
+            excl = call_target(O + "_is_hardcoded_excluded", pathlib.Path("proj") / fn)
+            if bool(kept) == bool(excl) or (kept and kept != [pathlib.Path("proj") / fn]):
+                return [dict(name=name, kind="bounded", verdict="refuted", carries=True, tool="native exhaustive over the listed set",
+                             budget="file-name alphabet", cases=cases, witness_confirmed=True,
+                             witness={"file": fn, "_collect_files_from_walk": [str(k) for k in kept], "_is_hardcoded_excluded": excl},
+                             note=f"file name {fn!r}: the directory walk keeps {[str(k) for k in kept]} but _is_hardcoded_excluded "
+                                  f"(explicitly named file) says excluded={excl}")]
     except BaseException as e:  # noqa
         return [dict(name=name, kind="bounded", verdict="unknown", carries=True, tool="native", cases=cases, note=f"harness error {e!r}"[:300])]
     return [dict(name=name, kind="bounded", verdict="passed", carries=True, tool="native exhaustive over the listed set",
@@ -359,9 +422,11 @@ def excluded_set_native(ctx):
 
 
 # =================================================================== end-to-end bounded check at the property's observation point
-_PAT_POOL = ["gen/", "a.py", "src/*.py", "src/gen/*.py", "*/b.py", "build2/", "# a comment", "", "pkg/", "  c.py  ", "*.ts", "src/gen/"]
-_LINT_DIRS = ["src", "gen", "pkg", "build", "dist", ".venv", "node_modules", "x.egg-info", "build2", ".hidden", "htmlcov"]
-_LINT_FILES = ["a.py", "b.py", "c.py", "d.pyc", "e.so"]
+_PAT_POOL = ["gen/", "a.py", "src/*.py", "src/gen/*.py", "*/b.py", "build2/", "# a comment", "", "pkg/", "  c.py  ", "*.ts", "src/gen/",
+             ".hidden/", ".dot.py", ".scratch/", "scratch/", "dot.py", "./gen/", "/a.py", "..", ".", "*.obj.py"]
+_LINT_DIRS = ["src", "gen", "pkg", "build", "dist", ".venv", "node_modules", "x.egg-info", "build2", ".hidden", "htmlcov", ".scratch",
+              "scratch"]
+_LINT_FILES = ["a.py", "b.py", "c.py", "d.pyc", "e.so", "shapes.obj.py", "codec.o.py", "model.class.py", ".dot.py", "lib.so.py", "dot.py"]
 
 
 def _gen_lint_tree(rng, depth):
@@ -428,10 +493,18 @@ def lint_directory_bounded(ctx):
             root = pathlib.Path(base) / f"p{i}"
             root.mkdir()
             _write_lint_tree(str(root), tree)
-            raw = [rng.choice(_PAT_POOL) for _ in range(rng.randint(0, 2))]
-            if raw:
+            raw = [rng.choice(_PAT_POOL) for _ in range(rng.randint(0, 3))]
+            source = rng.choice([".thailintignore", "config ignore:"]) if raw else "none"
+            if source == ".thailintignore":
                 (root / ".thailintignore").write_text("\n".join(raw) + "\n", encoding="utf-8")
-            pats = [ln.strip() for ln in raw if ln.strip() and not ln.strip().startswith("#")]
+                # gitignore-style file: blank lines and comments are not patterns, surrounding white space is stripped
+                pats = [ln.strip() for ln in raw if ln.strip() and not ln.strip().startswith("#")]
+            elif source == "config ignore:":
+                import yaml as _yaml
+                (root / ".thailint.yaml").write_text(_yaml.safe_dump({"ignore": raw}), encoding="utf-8")
+                pats = list(raw)  # the config's list is taken verbatim
+            else:
+                pats = []
             clear_ignore_parser_cache()
             orch = Orchestrator(project_root=root, config={})
             want = set()
@@ -447,17 +520,17 @@ def lint_directory_bounded(ctx):
                     if solo:
                         return [dict(name=name, kind="bounded", verdict="refuted", carries=True, tool="real-tree lint runs", cases=cases,
                                      budget=f"{n} trees", witness_confirmed=True,
-                                     witness={"tree": tree, "thailintignore": raw, "file": "/".join(parts)},
+                                     witness={"tree": tree, "patterns": raw, "pattern_source": source, "file": "/".join(parts)},
                                      note=f"excluded/ignored file {'/'.join(parts)} named explicitly contributes {len(solo)} violations; "
-                                          f"tree {tree} .thailintignore {raw}")]
+                                          f"tree {tree} patterns {raw} from {source}")]
             vs = orch.lint_directory(root, recursive=True)
             got = {os.path.relpath(v.file_path, str(root)) for v in vs if v.rule_id.startswith("magic-numbers")}
             cases += 1
             if got != want:
                 return [dict(name=name, kind="bounded", verdict="refuted", carries=True, tool="real-tree lint runs", cases=cases,
                              budget=f"{n} trees", witness_confirmed=True,
-                             witness={"tree": tree, "thailintignore": raw, "got": sorted(got), "expected": sorted(want)},
-                             note=f"tree {tree} .thailintignore {raw}: reported {sorted(got)}, expected {sorted(want)}")]
+                             witness={"tree": tree, "patterns": raw, "pattern_source": source, "got": sorted(got), "expected": sorted(want)},
+                             note=f"tree {tree} patterns {raw} from {source}: reported {sorted(got)}, expected {sorted(want)}")]
             shutil.rmtree(str(root), ignore_errors=True)
     except BaseException as e:  # noqa
         return [dict(name=name, kind="bounded", verdict="unknown", carries=True, tool="real-tree lint runs", cases=cases,
@@ -474,3 +547,63 @@ def lint_directory_bounded(ctx):
     return [dict(name=name, kind="bounded", verdict="passed", carries=True, tool="real-tree lint runs (tempfile.mkdtemp, removed)",
                  budget=f"{n} trees, seed {ctx.get('seed', 0)}", cases=cases,
                  note=f"{cases} directory runs report exactly the expected files; {ignored_cases} files matched a .thailintignore pattern")]
+
+
+# =================================================================== where the repository patterns come from (ignore.py)
+from pyvc.api import is_str_list, as_str_list  # noqa: E402
+
+
+@contract(IG + "_extract_ignore_patterns~patterns", props=["C14", "C04"], types=dict(config=Any, ignore_patterns=Any, pattern=Any),
+          returns=SeqOf(Str), raises=[])
+class ExtractIgnorePatternsVerbatim:
+    """Second view of a function contracts/c11_containment.py contracts for containment: the config's `ignore:` list is
+    taken VERBATIM (property text: 'files matching a repository ignore pattern from .thailintignore or the config's
+    ignore list' -- the pattern the user wrote is the pattern that is matched, exactly as for .thailintignore lines)."""
+    def ensures_string_patterns_are_taken_verbatim(config, result):
+        return implies(isinstance(config, dict) and "ignore" in config and is_str_list(config["ignore"]),
+                       result == as_str_list(config["ignore"]))
+
+    def ensures_no_ignore_key_no_patterns(config, result):
+        return implies(isinstance(config, dict) and "ignore" not in config, len(result) == 0)
+
+    def witness_string_patterns_are_taken_verbatim():
+        # concrete inputs for a native run when the solver cannot decide the clause (re-validated on every run)
+        return {"config": {"ignore": [".scratch/", "./gen/", "/abs.py", "..", "plain.py", "*.pyc"]}}
+
+
+def thailintignore_patterns(f):
+    """The patterns of a readable .thailintignore: its stripped lines that are neither blank nor comments."""
+    return [line for line in [ln.strip() for ln in fs_text(f).splitlines()] if line and not line.startswith("#")]
+
+
+try:
+    from contracts.c15_language import fs_text, fs_io_ok, fs_utf8_ok  # the one file-system snapshot (Path.read_text externals)
+    from contracts import c11_containment as _c11  # noqa: F401  (logger externals, containment views of these functions)
+    _FS_AVAILABLE = True
+except BaseException:  # noqa
+    _FS_AVAILABLE = False
+
+
+class ParseThailintignoreFilePatterns:
+    """Functional view (contracts/c11_containment.py holds the containment view): a readable file yields exactly its
+    pattern lines, an unreadable / undecodable one yields none."""
+    def ensures_readable(ignore_file, result):
+        return implies(fs_io_ok(ignore_file) and fs_utf8_ok(ignore_file), result == thailintignore_patterns(ignore_file))
+
+    def ensures_unreadable(ignore_file, result):
+        return implies(not (fs_io_ok(ignore_file) and fs_utf8_ok(ignore_file)), result == [])
+
+
+class LoadRepoIgnores:
+    """Where the repository patterns come from: .thailintignore if it exists (the config's `ignore:` list is then NOT
+    consulted), else .thailint.yaml, else nothing."""
+    def ensures_no_source_no_patterns(project_root, result):
+        return implies(not fs_exists(path_div(project_root, ".thailintignore")) and not fs_exists(path_div(project_root, ".thailint.yaml")),
+                       result == [])
+
+
+if _FS_AVAILABLE:
+    contract(IG + "_parse_thailintignore_file~patterns", props=["C14", "C04"], types=dict(ignore_file=PathT, content=Str),
+             returns=SeqOf(Str), raises=[])(ParseThailintignoreFilePatterns)
+    contract(IG + "_load_repo_ignores", props=["C14", "C04", "C08"], types=dict(project_root=PathT, thailintignore=PathT, config_file=PathT),
+             returns=SeqOf(Str), raises=[])(LoadRepoIgnores)
